@@ -22,7 +22,7 @@ ASSUMPTIONS = [
 ]
 
 LEAF = ['R', 'N', 'X', 'G1', 'G2', 'GX0', 'GX1', 'RG', 'XG', 'GA', 'GB', 'NOH', 'R0', 'G0']
-CALLER = ['call', 'waitn', 'waito', 'call2', 'cally', 'ycall', 'cally0']
+CALLER = ['call', 'waitn', 'waito', 'call2', 'cally', 'ycall', 'cally0', 'callwait', 'waitcall']
 SLOW = ['S0', 'S1', 'S2', 'S3', 'S4']   # callee lasting k loop iterations (timeout programs)
 
 
@@ -81,7 +81,10 @@ def caller_handlers(level, shape, opts=None):
         'call2': [('call', nxt, o), ('call', nxt, o)],
         'cally': [('call', nxt, o), ('y', b + 9)],
         'ycall': [('y', None), ('call', nxt, o)],
-        'cally0': [('call', nxt, o), ('y', 0)],      # the caller's own result, produced right after being resumed, is falsy
+        'cally0': [('call', nxt, o), ('y', 0)],
+        # two roots in flight: one of them calls, the other waits by name for an event of the same name
+        'callwait': [('byinst', [('call', nxt, o), ('waitn', nxt, o)])],
+        'waitcall': [('byinst', [('waitn', nxt, o), ('call', nxt, o)])],      # the caller's own result, produced right after being resumed, is falsy
         'waitnever': [('waitn_never', 'never', o)],
     }[shape]
     return [(h, t, 2, ('gen', steps))]
@@ -121,6 +124,10 @@ def programs(tier):
             for c0 in ('call', 'waito'):
                 for s in ('GA', 'GB', 'GC', 'GD'):
                     yield (c0, s), 2, rev, tp
+        # one root calls, the other waits by name for an event of the same name; callees of different duration per instance
+        for c0 in ('callwait', 'waitcall'):
+            for s in ('GA', 'GB', 'GC', 'GD', 'R', 'G2', 'XG'):
+                yield (c0, s), 2, rev, None
         # two waiters suspended on the SAME event (wait by name is satisfied by the first event of that name), one impatient
         for tp in ((1, 9), (9, 1), (0, 9), (2, 20)):
             for s in ('S3', 'S4', 'GC', 'GA'):
@@ -225,7 +232,22 @@ def judge(program, w, res):
             continue
         last = max([k for k, y in enumerate(log) if y[0] in ('enter', 'exit', 'step', 'val') and y[2] == callee] or [-1])
         if how == 'waitn' and byname_multi:
-            continue   # any event of that name may legitimately resume it
+            # by design a wait by name is satisfied by an event of that name dispatched after the wait was set up - but by ONE such
+            # event as a whole: the waiter resumes after that event has finished, with that event's result
+            cname = w.events[callee].name
+            ok = False
+            for c, evc in w.events.items():
+                if evc.name != cname:
+                    continue
+                acts = [k for k, y in enumerate(log) if y[0] in ('enter', 'exit', 'step', 'val') and y[2] == c]
+                if acts and acts[-1] > j:
+                    continue            # still busy when the waiter was resumed
+                if (produced(log, c)[0], bool(produced(log, c)[1])) == (got, bool(goterr)):
+                    ok = True
+            if not ok:
+                bad.append(('wrong-result:by-name', 'caller %s of e%d (waiting by name for %s) was resumed with value %r errors=%r, which is the '
+                            'result of no event of that name that had finished by then' % (hid, eid, cname, got, goterr)))
+            continue
         if j < last:
             bad.append(('resumed-early', 'caller %s resumed at %d before callee e%d finished (%r at %d)' % (hid, j, callee, log[last], last)))
         exp, raises = produced(log, callee)
